@@ -64,12 +64,12 @@ var plans = map[string]Plan{
 		TraceCases: true,
 		Pkg:        "c04",
 		Runs: []Run{
-			{Test: "^TestProps$/^sim_history$", Checks: checks(1500, 30000), Shards: shards(4, 16)},
-			{Test: "^TestProps$/^hdl_history$", Checks: checks(250, 8000), Shards: shards(4, 16)},
-			{Test: "^TestProps$/^sim_join$", Checks: checks(600, 20000), Shards: shards(2, 8)},
-			{Test: "^TestProps$/^hdl_join$", Checks: checks(250, 8000), Shards: shards(2, 8)},
-			{Test: "^TestProps$/^sim_graph$", Checks: checks(600, 20000), Shards: shards(2, 8)},
-			{Test: "^TestProps$/^hdl_graph$", Checks: checks(200, 6000), Shards: shards(4, 16)},
+			{Test: "^TestProps$/^sim_history$", Checks: checks(1500, 12000), Shards: shards(4, 16)},
+			{Test: "^TestProps$/^hdl_history$", Checks: checks(250, 3500), Shards: shards(4, 16)},
+			{Test: "^TestProps$/^sim_join$", Checks: checks(600, 8000), Shards: shards(2, 8)},
+			{Test: "^TestProps$/^hdl_join$", Checks: checks(250, 3500), Shards: shards(2, 8)},
+			{Test: "^TestProps$/^sim_graph$", Checks: checks(600, 8000), Shards: shards(2, 8)},
+			{Test: "^TestProps$/^hdl_graph$", Checks: checks(200, 2500), Shards: shards(4, 16)},
 		},
 		Assumptions: []string{
 			"per-opcode delay maps are single-valued (a multi-valued distribution samples the global math/rand/v2 source)",
@@ -156,7 +156,7 @@ var plans = map[string]Plan{
 		TraceCases: true,
 		Pkg:        "c06",
 		Runs: []Run{
-			{Test: "^TestProps$/^partitions$", Checks: checks(60, 1500), Shards: shards(8, 16), Timeout: tmo(15*time.Minute, 60*time.Minute)},
+			{Test: "^TestProps$/^partitions$", Checks: checks(60, 800), Shards: shards(8, 16), Timeout: tmo(15*time.Minute, 60*time.Minute)},
 		},
 		Assumptions: []string{
 			"fragments write every non-input register before reading it (relying on values left by a previous activation or another collapsed fragment is undocumented)",
@@ -169,8 +169,8 @@ var plans = map[string]Plan{
 		Pkg:   "c12",
 		Tools: []string{"bondgo"},
 		Runs: []Run{
-			{Test: "^TestProps$/^compile_faithful$", Checks: checks(60, 400), Shards: shards(4, 16), Timeout: tmo(15*time.Minute, 90*time.Minute)},
-			{Test: "^TestProps$/^compile_full$", Checks: checks(40, 250), Shards: shards(4, 16), Timeout: tmo(15*time.Minute, 90*time.Minute)},
+			{Test: "^TestProps$/^compile_faithful$", Checks: checks(60, 220), Shards: shards(4, 16), Timeout: tmo(15*time.Minute, 90*time.Minute)},
+			{Test: "^TestProps$/^compile_full$", Checks: checks(40, 140), Shards: shards(4, 16), Timeout: tmo(15*time.Minute, 90*time.Minute)},
 		},
 		Assumptions: []string{
 			"the real bondgo CLI (built from /repo with -tags verif) is run as a child process under a hard 10 s deadline for three schedule plans (GOMAXPROCS x VERIF_BONDGO_SCHED) per program; a hang is classified from a goroutine dump",
@@ -201,15 +201,15 @@ var plans = map[string]Plan{
 		Pkg:   "c07",
 		Tools: []string{"basm", "bondgo", "neuralbond", "bmqsim", "bondmachine"},
 		Runs: []Run{
-			{Test: "^TestProps$/^inproc_basm$", Checks: checks(20, 400), Shards: shards(3, 8)},
+			{Test: "^TestProps$/^inproc_basm$", Checks: checks(20, 250), Shards: shards(3, 8)},
 			{Test: "^TestProps$/^inproc_neuralbond$", Checks: checks(4, 40), Shards: shards(1, 2)},
 			{Test: "^TestProps$/^inproc_bmqsim$", Checks: checks(3, 8), Shards: shards(1, 4)},
-			{Test: "^TestProps$/^inproc_hdl$", Checks: checks(30, 600), Shards: shards(1, 1)},
+			{Test: "^TestProps$/^inproc_hdl$", Checks: checks(30, 300), Shards: shards(1, 1)},
 			{Test: "^TestProps$/^cli_basm$", Checks: checks(5, 40), Shards: shards(2, 4)},
 			{Test: "^TestProps$/^cli_neuralbond$", Checks: checks(2, 8), Shards: shards(1, 2)},
 			{Test: "^TestProps$/^cli_bmqsim$", Checks: checks(2, 5), Shards: shards(1, 2)},
-			{Test: "^TestProps$/^cli_bondgo$", Checks: checks(8, 60), Shards: shards(1, 1)},
-			{Test: "^TestProps$/^cli_bondmachine$", Checks: checks(8, 60), Shards: shards(1, 1)},
+			{Test: "^TestProps$/^cli_bondgo$", Checks: checks(8, 40), Shards: shards(1, 1)},
+			{Test: "^TestProps$/^cli_bondmachine$", Checks: checks(10, 50), Shards: shards(1, 1)},
 		},
 		Assumptions: []string{
 			"every input is run N times (6 quick, 30 thorough) as fresh child processes with GOMAXPROCS cycling 1/2/16 (CLI entries) or executed twice in-process on fresh instances with the process-wide registries reset; a nondeterminism with per-run probability p is missed with (1-p)^(N-1)",
@@ -239,8 +239,8 @@ var plans = map[string]Plan{
 		TraceCases: true,
 		Pkg:        "c05",
 		Runs: []Run{
-			{Test: "^TestProps$/^streams$", Checks: checks(110, 2400), Shards: shards(8, 16), Timeout: tmo(15*time.Minute, 90*time.Minute)},
-			{Test: "^TestProps$/^macro_shapes$", Checks: checks(50, 1000), Shards: shards(8, 16), Timeout: tmo(15*time.Minute, 90*time.Minute)},
+			{Test: "^TestProps$/^streams$", Checks: checks(110, 1300), Shards: shards(8, 16), Timeout: tmo(15*time.Minute, 90*time.Minute)},
+			{Test: "^TestProps$/^macro_shapes$", Checks: checks(50, 600), Shards: shards(8, 16), Timeout: tmo(15*time.Minute, 90*time.Minute)},
 			{Test: "^TestHygiene$", NoRapid: true, Shards: shards(1, 1)},
 		},
 		Fuzz: []Fuzz{{Target: "FuzzParseAssembly", Time: 2 * time.Minute}},
@@ -268,11 +268,11 @@ var plans = map[string]Plan{
 		Pkg:   "c16",
 		Tools: []string{"basm", "bondgo", "neuralbond", "bmqsim"},
 		Runs: []Run{
-			{Test: "^TestProps$/^basm_sources$", Checks: checks(200, 4000), Shards: shards(8, 16)},
-			{Test: "^TestProps$/^basm_fragments$", Checks: checks(30, 600), Shards: shards(8, 16), Timeout: tmo(15*time.Minute, 90*time.Minute)},
+			{Test: "^TestProps$/^basm_sources$", Checks: checks(200, 2200), Shards: shards(8, 16)},
+			{Test: "^TestProps$/^basm_fragments$", Checks: checks(30, 350), Shards: shards(8, 16), Timeout: tmo(15*time.Minute, 90*time.Minute)},
 			{Test: "^TestProps$/^neuralbond$", Checks: checks(16, 150), Shards: shards(2, 4)},
 			{Test: "^TestProps$/^bmqsim$", Checks: checks(8, 40), Shards: shards(2, 4), Timeout: tmo(15*time.Minute, 90*time.Minute)},
-			{Test: "^TestProps$/^bondgo$", Checks: checks(40, 500), Shards: shards(6, 16)},
+			{Test: "^TestProps$/^bondgo$", Checks: checks(40, 300), Shards: shards(6, 16)},
 			{Test: "^TestProps$/^unfittable$", Checks: checks(50, 600), Shards: shards(6, 8)},
 		},
 		Assumptions: []string{
